@@ -11,6 +11,7 @@ import Cicada.Spec.C14
 import Cicada.Spec.C15
 import Cicada.Spec.C06
 import Cicada.Model.History
+import Cicada.Model.HistPrompt
 import Cicada.Model.EnvCd
 import Cicada.Spec.C17
 import Cicada.Spec.C03
@@ -631,7 +632,14 @@ def answer (stream : String) (f : Array String) : Ans :=
         { a with s := toksOut spec, guard := "1" }
       | _, _ => a
     else a
-  | "xglob" => { m := toksOut (expandGlob (envIn (g 0)).env (toksIn (g 1))) }
+  | "xglob" =>
+    let e := (envIn (g 0)).env
+    let ts := toksIn (g 1)
+    -- guard: the matcher accepts every pattern, and no word starts with a quote character after trimming
+    let ok := ts.all (fun (sep, text) => !(sep = [] ∧ text.contains '*') ||
+      ((e.glob text).isSome && !((trim text).head? = some '\'' ∨ (trim text).head? = some '"')))
+    { m := toksOut (expandGlob e ts), s := toksOut (C12.globSpec e.glob ts), guard := if ok then "1" else "0",
+      cls := if ok then "-" else "outside-statement:pattern-error" }
   | "xall" =>
     let ts := toksIn (g 1)
     ansOf toksOut (doExpansion (envIn (g 0)).subst (planFuel (tokensToLine ts)) ts)
@@ -928,6 +936,14 @@ def answer (stream : String) (f : Array String) : Ans :=
       | ["A", _, l] => trim (unhex l) ≠ unhex l
       | _ => false)
     { m := m, s := "|".intercalate outsS ++ "#" ++ rowsS, guard := if trimmed then "0" else "1", cls := if trimmed then "trim" else "-" }
+  | "hprompt" =>
+    -- lines typed at one interactive prompt (hex, separated by `,`): the rows stored
+    let lines := if g 0 = "[]" ∨ g 0 = "" then [] else ((g 0).splitOn ",").map unhex
+    let rows := (Hist.promptSession [] lines).db.rows.map (·.inp)
+    let noBang := lines.all (fun l => !hasInfix ['!', '!'] l)
+    let noTrim := lines.all (fun l => l.head? == some ' ' || trim l == l)
+    { m := hexList rows, s := hexList (Hist.specRecorded lines), guard := if noBang && noTrim then "1" else "0",
+      cls := if !noBang then "outside-statement:bangbang" else if !noTrim then "trim" else "-" }
   | "globneeds" =>
     -- which patterns will `expand_glob` hand to the glob crate for this case (f2: line | line1 | tokens)
     let es := envIn (g 0)
